@@ -212,6 +212,7 @@ func GenConfig(prop string, g *Gen, tier string) Config {
 			if c.Cache == "none" {
 				c.Cache = "arc-big"
 			}
+			c.Prefixes = []string{"", "port", "slash"}[g.Intn(3)]
 		}
 		c.BF = []uint{2, 2, 3, 4}[g.Intn(4)]
 		if g.Intn(10) == 0 {
@@ -294,6 +295,9 @@ func GenConfig(prop string, g *Gen, tier string) Config {
 		c.Extra = "threshold"
 		c.CheckEvery = 1 << 30
 		c.InMemory = false
+	}
+	if (prop == "C05" || prop == "C01") && g.Intn(40) == 0 && !c.NoLike && c.ValD != "nil" && c.CbOnly == "" && c.Marshaler == "json" {
+		c.OneSided = []string{"keys", "vals"}[g.Intn(2)]
 	}
 	if c.NoLike {
 		// registered-types unmarshalling round-trips only JSON-native types: strings it is, whatever
